@@ -275,7 +275,7 @@ Section Insert.
     inversion Hwfc as [|? ? [Hhh [Hp32 Hsib32]] Hwfc']; subst. cbn [fr_hash fr_idx fr_sib] in *.
     (* run insert up to insert_third_or_later *)
     unfold insert. unfold amap_mem. rewrite Hknone, Hhnone.
-    unfold get_node, rbind. rewrite Hg. cbn [b_node].
+    unfold get_node, rbind. rewrite Hg. cbn [b_node l_key]. rewrite Hki, N.eqb_refl. cbn [negb].
     assert (Hlc1 : (leaf_count s =? 1) = false).
     { rewrite Hlc. rewrite plug_leaves_length. cbn [old it_leaves length].
       pose proof (ctx_leaves_cons_nonempty (Fr p hh d lh sib) c'). destruct (ctx_leaves (Fr p hh d lh sib :: c')); [congruence|].
